@@ -70,6 +70,15 @@ func runReq(c reqCase) harness.Result {
 		if c.Framing == spec.RTU {
 			inputs = append(inputs, frame[:len(frame)-2]) // per-function RTU parsers also accept the frame without CRC
 		}
+		if want := spec.EncodeRequest(c.Framing, r); !bytes.Equal(frame, want) && known == "" {
+			// what a conforming master puts on the wire for this request (independent encoder, independent CRC) is what the parsers
+			// must accept - whatever the library's own encoder does
+			for _, p := range parsers(c.Framing, r.FC) {
+				if v, err := p.Fn(append([]byte(nil), want...)); err != nil || cat.IsNilValue(v) {
+					return harness.Fail("%s refused the specification's encoding %x of the legal request %+v: %v (the library's own encoder produces %x)", p.Name, want, r, err, frame)
+				}
+			}
+		}
 		for _, p := range parsers(c.Framing, r.FC) {
 			for k, in := range inputs {
 				if k == 1 && p.FC == 0 {
